@@ -56,6 +56,21 @@ def native_search(qualname, n, seed, label=None, timeout=600):
         return dict(error='native check timed out')
 
 
+BASELINE_FILE = os.path.join(VERIF, 'baseline_obligations.json')
+
+
+def load_baseline():
+    """{qualname: {sha, proved:[stable obligation names]}} recorded on the reference tree (maintenance mode only,
+    PYVC_RECORD_BASELINE=1); never written by an ordinary run."""
+    if os.path.exists(BASELINE_FILE):
+        return json.load(open(BASELINE_FILE))
+    return {}
+
+
+def stable_name(name):
+    return re.sub(r'@L\d+', '', name)
+
+
 def load_known():
     p = os.path.join(VERIF, 'known_findings.json')
     if os.path.exists(p):
@@ -153,6 +168,7 @@ def run_property(pid, tier, seed, out=sys.stdout):
         except (Unsupported, ContractError) as e:
             struct_results.append(dict(name=s['name'], ok=None, detail="%s: %s" % (type(e).__name__, e), fn=''))
 
+    baseline = load_baseline()
     known = [k for k in load_known() if k.get('property') == pid]
     known_open = {k['obligation']: k for k in known if k.get('status') == 'open'}
 
@@ -275,8 +291,23 @@ def run_property(pid, tier, seed, out=sys.stdout):
             json.dump(entry, open(path, 'w'), indent=1, default=str)
             violations.append((name, path, True))
         else:
-            undecided.append(dict(obligation=name, why='solver: %s' % ((r.get('info') or {}).get('reason', 'unknown')),
-                                  trail=ob.trail))
+            why = 'solver: %s' % ((r.get('info') or {}).get('reason', 'unknown'))
+            base = baseline.get(q)
+            if base is not None and base.get('sha') != per[q].get('sha'):
+                # The text of this function (or of a callee inlined into it) differs from the reference tree on which
+                # every obligation of the function was discharged, and this obligation is no longer accepted: reported
+                # as a violation without a failing input.  On unchanged text the same outcome can only be solver
+                # variance and stays UNDECIDED.
+                was = 'proved on the reference tree' if stable_name(name) in base.get('proved', []) else 'new obligation generated by the changed code'
+                path = os.path.join(VERIF, 'replays', '%s-%s.json' % (pid, sanitize(name)))
+                entry['property'] = pid
+                entry['native'] = None
+                entry['verdict'] = 'not discharged on changed code (%s); %s' % (was, why)
+                entry['reference_sha'] = base.get('sha')
+                json.dump(entry, open(path, 'w'), indent=1, default=str)
+                violations.append((name, path, False))
+            else:
+                undecided.append(dict(obligation=name, why=why, trail=ob.trail))
 
     # functions that could not be brought under the engine
     for q in fucs:
@@ -361,19 +392,36 @@ def run_property(pid, tier, seed, out=sys.stdout):
                             trusted_base=sorted(set(a for a in assumptions if a.startswith('library model') or a.startswith('assumed contract') or a.startswith('lemma'))),
                             by_backend=by_backend, solver_s=round(solver_s, 2),
                             functions_under_contract=fuc_list, samples=samples or [dict(note='no obligation discharged')],
+                            slowest=[dict(obligation=r['name'], trail='/'.join(r['trail']), s=round(r['time'], 2), backend=r['backend'], verdict=r['verdict'])
+                                     for r in sorted(results, key=lambda r: -r['time'])[:12]],
                             bounded=bounded, undecided=undecided, refuted_known=refuted_known,
                             vacuity_unchecked=vacuity_unchecked,
                             path_obligations=len(obls), lemmas=[l['name'] for l in lemma_results], lemmas_not_run_in_this_tier=lean_skipped,
                             structural=[s['name'] for s in struct_results],
                             explanation="obligations = distinct named obligations (each may have several per-path queries; all paths must be discharged); bounded[] entries are run-time contract checks and are not part of obligations/discharged"),
               assumptions=assumptions, wall_s=round(time.time() - t_start, 2), violations=len(violations))
+    if os.environ.get('PYVC_RECORD_BASELINE'):
+        # maintenance mode, run on the reference tree only: which obligations of which function text are discharged
+        bl = load_baseline()
+        proved_by_fn = {}
+        for (q, name), items in grouped.items():
+            if all(r['verdict'] == solve.PROVED for _, r in items):
+                proved_by_fn.setdefault(q, set()).add(stable_name(name))
+        for q in fucs:
+            if per[q].get('sha'):
+                old = bl.get(q, {})
+                prev = set(old.get('proved', [])) if old.get('sha') == per[q]['sha'] else set()
+                bl[q] = dict(sha=per[q]['sha'], proved=sorted(prev | proved_by_fn.get(q, set())))
+        json.dump(bl, open(BASELINE_FILE, 'w'), indent=0, sort_keys=True)
     if os.environ.get('PYVC_RECORD_HINTS'):
         # maintenance mode: remember which solver configuration discharged each obligation (speed hint, see solve.py)
         h = dict(solve.load_hints())
         h.update(solve.NEW_HINTS)
         json.dump(h, open(solve.HINTS_FILE, 'w'), indent=0, sort_keys=True)
-    os.makedirs(os.path.join(VERIF, 'evidence'), exist_ok=True)
-    json.dump(ev, open(os.path.join(VERIF, 'evidence', pid + '.json'), 'w'), indent=1, default=str)
+    # development runs against a scratch copy (PYVC_REPO_SRC) must not overwrite the evidence of /repo
+    evdir = os.path.join(VERIF, 'evidence') if not os.environ.get('PYVC_REPO_SRC') else os.environ.get('PYVC_EVIDENCE_DIR', '/tmp/pyvc_evidence')
+    os.makedirs(evdir, exist_ok=True)
+    json.dump(ev, open(os.path.join(evdir, pid + '.json'), 'w'), indent=1, default=str)
 
     for k, entry, nf in known_hits:
         print("KNOWN-FINDING: property=%s %s -- %s" % (pid, k['obligation'], k.get('what', '')), file=out)
